@@ -15,17 +15,17 @@ import (
 // subscription whose cache is a real cache actor.
 
 type vNode struct {
-	kind    string // pub sub fsub fpub mon
-	parent  int    // index of the parent node (-1: root publisher)
-	pub     Controller
-	sub     Subscription
-	mon     Monitor
-	since   int  // number of events published when the node was attached
-	exact   bool // the system was quiescent when it was attached
-	got     []Event
-	monch   chan Event // monitor callbacks
-	closed  bool
-	refilt  func(filter.Filter) error
+	kind   string // pub sub fsub fpub mon
+	parent int    // index of the parent node (-1: root publisher)
+	pub    Controller
+	sub    Subscription
+	mon    Monitor
+	since  int  // number of events published when the node was attached
+	exact  bool // the system was quiescent when it was attached
+	got    []Event
+	monch  chan Event // monitor callbacks
+	closed bool
+	refilt func(filter.Filter) error
 }
 
 type vTree struct {
@@ -101,9 +101,9 @@ func (t *vTree) publishMixed() {
 type vMonHandler struct{ ch chan Event }
 
 func (h vMonHandler) OnInitialize(objs []metav1.Object) {}
-func (h vMonHandler) OnCreate(o metav1.Object)         { h.ch <- NewEvent(EventTypeCreate, o) }
-func (h vMonHandler) OnUpdate(o metav1.Object)         { h.ch <- NewEvent(EventTypeUpdate, o) }
-func (h vMonHandler) OnDelete(o metav1.Object)         { h.ch <- NewEvent(EventTypeDelete, o) }
+func (h vMonHandler) OnCreate(o metav1.Object)          { h.ch <- NewEvent(EventTypeCreate, o) }
+func (h vMonHandler) OnUpdate(o metav1.Object)          { h.ch <- NewEvent(EventTypeUpdate, o) }
+func (h vMonHandler) OnDelete(o metav1.Object)          { h.ch <- NewEvent(EventTypeDelete, o) }
 
 // attach adds a node of the given kind below publisher node pi.
 func (t *vTree) attach(pi int, kind string, exact bool) int {
